@@ -90,6 +90,7 @@ theorem apply_wf (st : Store) (op : Op) (h : WF st) : WF (apply true st op) := b
   | onError c id => exact update_wf st c _ h (fun cl hcl => hcl)
   | setXform c id => exact update_wf st c _ h (fun cl hcl => hcl)
   | autoRead c off => exact update_wf st c _ h (fun cl hcl => hcl)
+  | digestAuth c => exact update_wf st c _ h (fun cl hcl => hcl)
 
 theorem foldl_wf (ops : List Op) : ∀ st, WF st → WF (ops.foldl (apply true) st) := by
   induction ops with
@@ -163,6 +164,7 @@ theorem apply_other (rb : Bool) (st : Store) (op : Op) (c : Cid) (hc : c < st.le
   | onError c' id => exact update_other st c c' _ (fun e => hne (by simp [Op.target, e]))
   | setXform c' id => exact update_other st c c' _ (fun e => hne (by simp [Op.target, e]))
   | autoRead c' off => exact update_other st c c' _ (fun e => hne (by simp [Op.target, e]))
+  | digestAuth c' => exact update_other st c c' _ (fun e => hne (by simp [Op.target, e]))
 
 theorem apply_length_le (rb : Bool) (st : Store) (op : Op) : st.length ≤ (apply rb st op).length := by
   cases op <;> simp only [apply, update] <;> (try split) <;> simp
@@ -221,5 +223,36 @@ theorem clone_starts_from_parent (ops : List Op) (p : Cid) (e : Eff)
 example : effective (build true ([.new, .wrap 0 [1, 2], .onAfter 0 5, .setCommonErr 0 4] ++ [.clone 0])) 1
     = some { wrappers := [2, 1], core := 1, before := [], checker := none, xform := none, hook := none,
              after := [5], commonErr := some 4, autoReadOff := false, transport := 1 } := by decide
+
+/-- **digest_auth_displaces_nothing** — `SetCommonDigestAuth` on ANY client at ANY point of ANY
+program (before, between or after the middleware registrations, repeated, on a parent or a copy)
+changes nothing of what a call of ANY client consults: every response middleware registered so
+far is still there, in registration order, and so is every other setting. -/
+theorem digest_auth_displaces_nothing (ops : List Op) (c c' : Cid) :
+    effective (build true (ops ++ [.digestAuth c])) c' = effective (build true ops) c' := by
+  rw [call_runs_own_settings, call_runs_own_settings]
+  have hb : build true (ops ++ [.digestAuth c]) =
+      update (build true ops) c (fun cl => { cl with digest := true }) := by
+    unfold build
+    rw [List.foldl_append]
+    rfl
+  rw [hb]
+  by_cases e : c = c'
+  · subst e
+    unfold own update
+    cases hc : (build true ops)[c]? with
+    | none => simp only [hc]
+    | some cl =>
+      have hlt : c < (build true ops).length := by
+        cases Nat.lt_or_ge c (build true ops).length with
+        | inl h => exact h
+        | inr h => rw [List.getElem?_eq_none h] at hc; cases hc
+      simp only [List.getElem?_set_self hlt]
+  · unfold own
+    rw [update_other _ c' c _ e]
+
+example : effective (build true ([.new, .onAfter 0 5, .onAfter 0 6] ++ [.digestAuth 0])) 0
+    = some { wrappers := [], core := 0, before := [], checker := none, xform := none, hook := none,
+             after := [5, 6], commonErr := none, autoReadOff := false, transport := 0 } := by decide
 
 end Req.Props.C18
